@@ -1,0 +1,96 @@
+//go:build verif
+
+// Contracts for package crypto, checked by /verif/govc (comment-only file).
+package crypto
+
+// ---- Bitfield: an ID set as a bit-field (bit id-1). Bytes are 8-bit vectors (mode bytebv).
+//@ pure func one(i int) byte = i == 0 ? byte(1) : (i == 1 ? byte(2) : (i == 2 ? byte(4) : (i == 3 ? byte(8) : (i == 4 ? byte(16) : (i == 5 ? byte(32) : (i == 6 ? byte(64) : byte(128)))))))
+//@ pure func bit(b byte, i int) bool = b & one(i) != 0
+//@ pure func b2i(c bool) int = c ? 1 : 0
+//@ pure func pop8(b byte) int = b2i(bit(b,0)) + b2i(bit(b,1)) + b2i(bit(b,2)) + b2i(bit(b,3)) + b2i(bit(b,4)) + b2i(bit(b,5)) + b2i(bit(b,6)) + b2i(bit(b,7))
+//@ pure func cnt(d []byte, n int) int = n <= 0 ? 0 : cnt(d, n - 1) + pop8(d[n - 1]) decreases n
+//@ pure func mem(bf Bitfield, x hotstuff.ID) bool = x >= 1 && (x - 1) / 8 < len(bf.data) && bit(bf.data[(x - 1) / 8], (x - 1) % 8)
+//@ pred isSet(bf Bitfield) = bf.len == cnt(bf.data, len(bf.data))
+
+//@ func index property C19
+//@   ensures [def] id >= 1 ==> byteIdx == (id - 1) / 8 && bitIdx == (id - 1) % 8 && 0 <= bitIdx && bitIdx < 8 && byteIdx >= 0
+
+//@ func id property C19
+//@   requires 0 <= byteIdx && 0 <= bitIdx && bitIdx < 8 && 8 * byteIdx + bitIdx < 4294967295
+//@   ensures [inverse] result == 1 + 8 * byteIdx + bitIdx
+
+//@ func (Bitfield).isSet property C19
+//@   mode bytebv
+//@   requires 0 <= byteIdx && byteIdx < len(bf.data) && 0 <= bitIdx && bitIdx < 8
+//@   ensures [def] result == bit(bf.data[byteIdx], bitIdx)
+
+//@ func (Bitfield).Contains property C19
+//@   mode bytebv
+//@   requires id >= 1
+//@   ensures [def] result == mem(bf, id)
+
+//@ func (Bitfield).Len property C19
+//@   mode bytebv
+//@   ensures [def] result == bf.len
+
+// ---- popcount lemmas (two-state: old() is an arbitrary earlier heap; d0 is the old slice, d the new one)
+//@ lemma cnt_frame(d0 []byte, d []byte, n int) property C19
+//@   mode bytebv
+//@   opt twostate
+//@   requires forall j int :: 0 <= j && j < n ==> d[j] == old(d0[j])
+//@   ensures cnt(d, n) == old(cnt(d0, n))
+//@   decreases n
+//@   proof if n > 0 { use cnt_frame(d0, d, n - 1) }
+//@ lemma cnt_update(d0 []byte, d []byte, n int, k int) property C19
+//@   mode bytebv
+//@   opt twostate
+//@   requires 0 <= k && k < n
+//@   requires forall j int :: 0 <= j && j < n && j != k ==> d[j] == old(d0[j])
+//@   ensures cnt(d, n) == old(cnt(d0, n)) - old(pop8(d0[k])) + pop8(d[k])
+//@   decreases n
+//@   proof assert cnt(d, n) == cnt(d, n - 1) + pop8(d[n - 1]); assert old(cnt(d0, n)) == old(cnt(d0, n - 1)) + old(pop8(d0[n - 1])); if k < n - 1 { use cnt_update(d0, d, n - 1, k) } else { use cnt_frame(d0, d, n - 1) }
+//@ lemma cnt_zero(d []byte, n int, m int) property C19
+//@   mode bytebv
+//@   requires 0 <= n && n <= m
+//@   requires forall j int :: n <= j && j < m ==> d[j] == byte(0)
+//@   ensures cnt(d, m) == cnt(d, n)
+//@   decreases m - n
+//@   proof if n < m { use cnt_zero(d, n, m - 1) }
+//@ lemma cnt_nonneg(d []byte, n int) property C19
+//@   mode bytebv
+//@   ensures cnt(d, n) >= 0 && cnt(d, n) <= 8 * (n < 0 ? 0 : n)
+//@   decreases n < 0 ? 0 : n
+//@   proof if n > 0 { use cnt_nonneg(d, n - 1) }
+
+//@ func (*Bitfield).extend property C19
+//@   mode bytebv
+//@   requires nBytes >= 0 && len(bf.data) + nBytes <= 281474976710656
+//@   ensures [len] len(bf.data) == old(len(bf.data)) + nBytes
+//@   ensures [prefix] forall j int :: 0 <= j && j < old(len(bf.data)) ==> bf.data[j] == old(bf.data[j])
+//@   ensures [zeros] forall j int :: old(len(bf.data)) <= j && j < len(bf.data) ==> bf.data[j] == byte(0)
+//@   ensures [count] cnt(bf.data, len(bf.data)) == old(cnt(bf.data, len(bf.data)))
+//@   ensures [alias] samearr(bf.data, old(bf.data)) || fresh(bf.data)
+//@   modifies bf.data, bf.data[*], alloc
+//@   use return :: cnt_frame(old(bf.data), bf.data, old(len(bf.data)))
+//@   use return :: cnt_zero(bf.data, old(len(bf.data)), len(bf.data))
+
+//@ func (*Bitfield).set property C19
+//@   mode bytebv
+//@   requires 0 <= byteIdx && byteIdx < len(bf.data) && 0 <= bitIdx && bitIdx < 8
+//@   requires bf.len < 9223372036854775807
+//@   ensures [byte] bf.data[byteIdx] == old(bf.data[byteIdx]) | one(bitIdx)
+//@   ensures [others] forall j int :: 0 <= j && j < len(bf.data) && j != byteIdx ==> bf.data[j] == old(bf.data[j])
+//@   ensures [hdr] len(bf.data) == old(len(bf.data))
+//@   ensures [len] bf.len == old(bf.len) + (old(bit(bf.data[byteIdx], bitIdx)) ? 0 : 1)
+//@   ensures [count] cnt(bf.data, len(bf.data)) == old(cnt(bf.data, len(bf.data))) + (old(bit(bf.data[byteIdx], bitIdx)) ? 0 : 1)
+//@   modifies bf.len, bf.data[*]
+//@   use return :: cnt_update(old(bf.data), bf.data, len(bf.data), byteIdx)
+
+//@ func (*Bitfield).Add property C19
+//@   mode bytebv
+//@   requires id >= 1 && isSet(*bf)
+//@   ensures [wf] isSet(*bf)
+//@   ensures [mem] forall x hotstuff.ID :: mem(*bf, x) == (x == id || old(mem(*bf, x)))
+//@   ensures [size] bf.len == old(bf.len) + (old(mem(*bf, id)) ? 0 : 1)
+//@   modifies bf.data, bf.data[*], bf.len, alloc
+//@   use entry :: cnt_nonneg(bf.data, len(bf.data))
